@@ -56,6 +56,12 @@ def generate(rng, tier):
     g = spec["geom"]
     if g["tchans"] < 2:
         g["tchans"] = 2
+    # SCALE: frames of 3e5..2e6 samples with sizes that are not powers of two (block-wise reductions and gathers that
+    # only engage beyond some size, and how they weigh or place their remainder)
+    big = rng.random() < (0.04 if tier == "quick" else 0.1)
+    if big:
+        g["tchans"], g["fchans"] = rng.choice([(100, 4096), (16, 20000), (300, 4096), (60, 30000), (17, 65537)])
+        spec["route"] = rng.choice(["sizes", "data", "from_data"])
     pre = []
     if rng.random() < 0.6:
         pre.append({"op": "noise"})
@@ -67,9 +73,12 @@ def generate(rng, tier):
     if rng.random() < 0.2:
         pre.append({"op": "copy"})
     ops = []
-    for _ in range(rng.randint(1, 6)):
+    for _ in range(rng.randint(1, 6) if not big else rng.randint(2, 4)):
         parent = rng.randrange(0, 8)
         r = rng.random()
+        if big:
+            r = rng.choice([0.2, 0.5, 0.7, 0.7, 0.9, 0.95])      # mostly reductions, on the big root or its first children
+            parent = rng.choice([0, 0, 1])
         if rng.random() < 0.3:
             ops.append({"op": "clock_jump", "delta": rng.choice([3600.0, -3600.0, 86400.0 * 3, -1e-3])})
         if r < 0.3:
